@@ -6,7 +6,9 @@ RULE = ("TLC enumerates, for every shape in the bound, every option selection (e
         "actions in the documented order on a symbolic spectrum with a symbolic divisor; EqualsDocumented, MaskExact, "
         "NormalizedSumsToOne, NoOptionsIsIdentity are invariants. Each selection is run as ONE `sfs view` invocation and as a "
         "chain of single-option invocations with npy in between; the two outputs must be bit-identical and both equal the "
-        "exact expectation (1e-12; 1e-9 with projection); text output at precision 6 and 12 to the printed precision. "
+        "exact expectation (1e-12; 1e-9 with projection); the combined invocation writes to the destination drawn by the model "
+        "(stdout, or -o PATH onto a fresh path, onto an older and longer file, onto the input file itself) and the bytes found "
+        "there are what is compared (DestinationHoldsOnlyResult); text output at precision 6 and 12 to the printed precision. "
         "Non-trivial/distinct: distinct (shape, selection). The AnyOrder configuration must violate EqualsDocumented.")
 ASSUME = ["inputs are random positive reals; all-masked spectra normalise to NaN (0/0) in both model reading and tool",
           "projection targets per shape are two representatives, not all admissible targets (C03 covers those)"]
@@ -16,4 +18,5 @@ def run(tier):
     stages = [("MCView", "MCView_quick.cfg", "view")] if tier == "quick" else [
         ("MCView", "MCView_t1.cfg", "view"), ("MCView", "MCView_t2.cfg", "view")]
     return standard("C13", tier, "model_checking", RULE, ASSUME, stages,
-                    sabotage=[("MCView", "MCView_abAnyOrder.cfg", ["EqualsDocumented"])])
+                    sabotage=[("MCView", "MCView_abAnyOrder.cfg", ["EqualsDocumented"]),
+                              ("MCView", "MCView_abKeepTail.cfg", ["DestinationHoldsOnlyResult"])])
